@@ -22,6 +22,7 @@
 #include <unistd.h>
 #include <sys/timerfd.h>
 #include <cstring>
+#include <memory>
 
 #include <tbox/base/log.h>
 #include <tbox/base/assert.h>
@@ -47,6 +48,19 @@ struct TimerFd::Data {
     bool is_stop_after_trigger = false;
     struct itimerspec ts;
     int cb_level = 0;
+
+    //! 丢弃回调对象。如果是在回调里调用的（cleanup()、initialize()、setCallback()），
+    //! 正在执行的回调对象不能就地析构，交给 Loop 稍后再释放
+    //! (drop the callback; when called from inside it - cleanup(), initialize(), setCallback() - the functor
+    //!  that is running must not be destroyed under its feet: the loop releases it later)
+    void releaseCallback()
+    {
+        if (cb_level > 0 && cb) {
+            auto sp_cb = std::make_shared<Callback>(std::move(cb));
+            loop->runNext([sp_cb] { }, "TimerFd::releaseCallback");
+        }
+        cb = nullptr;
+    }
 };
 
 TimerFd::TimerFd(tbox::event::Loop *loop, const std::string &what)
@@ -102,7 +116,7 @@ void TimerFd::cleanup()
 
     disable();
     CHECK_CLOSE_RESET_FD(d_->timer_fd);
-    d_->cb = nullptr;
+    d_->releaseCallback();
     d_->is_inited = false;
 }
 
@@ -194,6 +208,7 @@ void TimerFd::onEvent(short events)
 
 void TimerFd::setCallback(Callback &&cb)
 {
+    d_->releaseCallback();
     d_->cb = std::move(cb);
 }
 
